@@ -758,6 +758,10 @@ for _m in ["props_world", "props_sysdata", "props_meta", "props_parseq"]:
 
 def replay(ctx, path):
     """Re-validate a saved replay trace with the property's invariants."""
+    if os.path.basename(path).startswith("crash-"):
+        # the record of a harness process that the code under test killed: it names the command to re-run
+        print(open(path).read()[:2000])
+        raise Violation(ctx.prop, "crash record (re-run the command it names against the same tree)", path)
     if ctx.prop in REPLAY_FNS:
         return REPLAY_FNS[ctx.prop](ctx, path)
     invs = TRACE_INVS.get(ctx.prop, [])
